@@ -184,7 +184,7 @@ new7 = '''## 7. Trusting the monitors: seeded changes
    with it; then the property's quick check was run against the patched tree (a scratch copy of /verif whose
    go.mod points at the worktree).  The changes live in `seeded/<id>/` (patch.diff, demo_test.go, meta.json,
    confirmation.json = what was run and observed).  %d changes, %d caught by the property's own quick check.
-   For the changes of the first two rounds (A-D) all 20 quick checks were afterwards run against every change
+   For the changes of the first round (A, B) all 20 quick checks were afterwards run against every change
    (`tools/seedmatrix.sh`, `seeded/<id>/matrix.json`; a '—' in that column for later rounds means "not run"):
    the column "other checks that also fire" lists checks of *other* properties that report a violation too -
    each such cell was looked at and is a consequence of the change reaching that check's workload (for instance
